@@ -465,7 +465,7 @@ def check(fx, rep, tier):
     # ... and so is the stack discipline: an instruction that pops fewer operands than the EVM leaves a stale constant where a
     # later SLOAD / SSTORE takes its key from (C07 R07.1, all 256 bytes)
     core.import_rules(rep, fx, "C07", "R05.6", only_rules=("R07.1",), floor=60, what="stack-effect obligations (C07 R07.1) behind 'the key expression of an executed access'")
-    core.import_rules(rep, fx, "C07", "R05.6", only_rules=("R07.2",), floor=15, what="memory / storage effect roles (C07 R07.2) behind 'the key expression of an executed access'", key_filter=lambda k: "effect:" in k)
+    core.import_rules(rep, fx, "C07", "R05.6", only_rules=("R07.2",), floor=15, what="memory / storage effect roles (C07 R07.2) behind 'the key expression of an executed access'", key_filter=lambda k: "effect:" in k or "copy-loop:" in k)
     # ... a stack overflow halts the EVM: an operation that grows the stack past 1024 items without raising executes code (and
     # storage accesses) the EVM never reaches (C17 R17.6 stack rules); and the constants that become slots - hashed words, jump
     # targets - are what the constant folder computes, so it has to compute what the EVM computes (C09, all rules)
